@@ -1,4 +1,5 @@
 import Model.Executor
+import Model.ExecutorConc
 import Driver.Util
 namespace Driver.C13
 open Util Executor
@@ -8,13 +9,16 @@ def init : Unit := ()
 def rtOfChar : Char → RT
   | 'r' => .retry | 't' => .rethrow | 'i' => .ignore | 'n' => .nextHost | _ => .unknown
 
-/-- policy syntax: none | simple:N | exp:N | down:L | custom:LIMIT:<10 chars, retry type per error kind 0..9> -/
+/-- policy syntax: none | simple:N | exp:N | down:<levels, '.'-separated consistency codes, or '-'> |
+    custom:LIMIT:<retry type per error kind 0..> -/
 def parsePolicy (s : String) : Option (Option Policy) :=
   match s.splitOn ":" with
   | ["none"] => some none
   | ["simple", n] => n.toNat?.map fun k => some (simplePolicy k)
   | ["exp", n] => n.toNat?.map fun k => some (exponentialPolicy k)
-  | ["down", n] => n.toNat?.map fun k => some (downgradingPolicy k)
+  | ["down", ls] =>
+      if ls == "-" then some (some (downgradingPolicyL []))
+      else ((ls.splitOn ".").mapM String.toNat?).map fun l => some (downgradingPolicyL l)
   | ["custom", lim, tbl] => lim.toNat?.map fun k =>
       some { attempt := fun n => decide (n ≤ k), rtype := fun e => rtOfChar (tbl.toList.getD e 'u') }
   | _ => none
@@ -26,47 +30,132 @@ def parseHost (s : String) : Option Host :=
     pure ⟨id, b == "1", c == "1"⟩
   | _ => none
 
-/-- outcomes: comma list of o | l | e<k> ; attempts beyond the list get `o` -/
+/-- outcomes: comma list of o | l | e<k>[variant letter] ; requests beyond the list get `o` -/
 def parseRes (s : String) : Option Res :=
   if s == "o" then some .ok else if s == "l" then some .logical
-  else if s.startsWith "e" then (s.drop 1).toNat?.map Res.err else none
+  else if s.startsWith "e" then
+    (String.ofList ((s.toList.drop 1).takeWhile Char.isDigit)).toNat?.map Res.err
+  else none
 
-def showFinal : Final → String
+def parseKind : String → Option Kind
+  | "q" => some .query | "bl" => some .batchLogged | "bu" => some .batchUnlogged | "bc" => some .batchCounter
+  | _ => none
+
+def showRes : Res → String
+  | .ok => "ok" | .logical => "ctx" | .err k => s!"e{k}"
+
+def showFinal (ctxErr : String) : Final → String
   | .last .ok => "ok"
-  | .last .logical => "logical"
+  | .last .logical => ctxErr
   | .last (.err k) => s!"err{k}"
   | .lastErr k => s!"err{k}"
   | .noConnections => "noconn"
   | .unknownRetryType => "unknownrt"
   | .outOfFuel => "out-of-fuel"
 
+def joinOr (l : List String) : String := if l.isEmpty then "-" else ",".intercalate l
+
+/-- observer records `idx:host:res:attempts-on-that-host-so-far`; `prev` = hosts of the earlier attempts of
+    the statement (the per-host metrics live as long as the statement) -/
+def obsRecords : List Nat → List Att → List String
+  | _, [] => []
+  | prev, a :: as =>
+      s!"{a.idx}:{a.host}:{showRes a.res}:{(prev.filter (· == a.host)).length + 1}" :: obsRecords (a.host :: prev) as
+
+structure Scn where
+  req : Req
+  pol : Option Policy
+  ctxErr : String
+  hosts : List Host
+  outcome : Nat → Res
+
+/-- one execution rendered the way the harness renders what it observed -/
+def showRun (s : Scn) (r : Run) (prevHosts : List Nat) (anySent : Bool) : String :=
+  let lat := if r.out.cnt == 0 then "0" else if anySent || !r.sent.isEmpty then "+" else "?"
+  "sent=" ++ joinOr (r.sent.map fun a => s!"{a.host}@{a.cons}") ++
+  s!" n={r.out.cnt} lat={lat} cons={r.out.cons} obs=" ++
+  (if s.req.observed then joinOr (obsRecords prevHosts r.out.attempts) else "off") ++
+  " final=" ++ showFinal s.ctxErr r.out.final
+
+def runScn (s : Scn) (c0 : Nat) (pre : Bool) (reps : Nat) : String :=
+  let r1 := execute s.req s.pol s.outcome 64 s.hosts 0 0 c0 pre
+  let s1 := showRun s r1 [] false
+  if reps < 2 then s1
+  else
+    let r2 := execute s.req s.pol s.outcome 64 s.hosts r1.sent.length r1.out.cnt r1.out.cons r1.ctxDone
+    s1 ++ " | " ++ showRun s r2 (r1.out.attempts.map (·.host)).reverse (!r1.sent.isEmpty)
+
+def decoyPolicy : Policy := simplePolicy 7
+
+/-- the `lim` of a policy of the form `Attempts() ≤ lim` (every policy the harness uses is of that form) -/
+def limitOf (s : String) : Option Nat :=
+  match s.splitOn ":" with
+  | ["none"] => some 0
+  | ["simple", n] => n.toNat?
+  | ["exp", n] => n.toNat?
+  | ["down", ls] => if ls == "-" then some 0 else some (ls.splitOn ".").length
+  | ["custom", lim, _] => lim.toNat?
+  | _ => none
+
+/-- policies that never answer `Retry` (same host): every request takes a fresh host from the shared iterator -/
+def nextHostOnly (s : String) : Bool := s == "none" || s.startsWith "simple:" || s.startsWith "exp:"
+
 def step (_ : Unit) (ws : List String) : Unit × String :=
   ((), match ws with
-  | ["do", pol, hosts, outs] =>
-      match parsePolicy pol, (if hosts == "-" then some [] else (hosts.splitOn ",").mapM parseHost),
+  | ["ex", kind, ctor, pol, polAt, obs, _idem, _sp, ctx, cons, _api, reps, hosts, outs] =>
+      match parseKind kind, parsePolicy pol, cons.toNat?, reps.toNat?,
+            (if hosts == "-" then some [] else (hosts.splitOn ",").mapM parseHost),
             (if outs == "-" then some [] else (outs.splitOn ",").mapM parseRes) with
-      | some p, some hs, some os =>
-        let out := doQuery p (fun n => os.getD n .ok) 64 hs 0
-        "attempts=" ++ (if out.attempts.isEmpty then "-" else ",".intercalate (out.attempts.map toString)) ++
-          " final=" ++ showFinal out.final
-      | _, _, _ => "bad-op"
-  | ["spec", idem, a, nh, nreq, first, result] =>
-      match a.toNat?, nh.toNat?, nreq.toNat? with
-      | some sa, some hosts, some n =>
+      | some k, some p, some c0, some rp, some hs, some os =>
+        let fromSession := ctor == "s"
+        -- retry policy: session level (`s`), statement level (`q`), or statement level over a session-level decoy (`o`)
+        let sessPol : Option Policy := if polAt == "s" then p else if polAt == "o" then some decoyPolicy else none
+        let stmtPol : Option (Option Policy) := if polAt == "s" then none else some p
+        let sessObs : Option Unit := if obs == "s" || obs == "o" then some () else none
+        let stmtObs : Option (Option Unit) := if obs == "q" || obs == "o" then some (some ()) else none
+        let scn : Scn := {
+          req := ⟨k, (effective fromSession sessObs stmtObs).isSome⟩,
+          pol := effective fromSession sessPol stmtPol,
+          ctxErr := if ctx == "d" || ctx == "pd" then "deadline" else "canceled",
+          hosts := hs, outcome := fun n => os.getD n .ok }
+        runScn scn c0 (ctx == "p" || ctx == "pd") rp
+      | _, _, _, _, _, _ => "bad-op"
+  | ["spec", _kind, idem, a, nh, nreq, most, released, result] =>
+      match a.toNat?, nh.toNat?, nreq.toNat?, most.toNat? with
+      | some sa, some hosts, some n, some mx =>
+        let e := maxExecutions (idem == "1") sa
         if result == "hang" then "reject:no-result"
-        else if n > maxExecutions (idem == "1") sa then s!"reject:too-many-executions:{n}"
+        else if n > e then s!"reject:too-many-executions:{n}"
         else if n > hosts then s!"reject:more-requests-than-hosts:{n}"
+        -- no retry policy: the shared iterator hands every host out once (C13_shared_iterator)
+        else if mx > 1 then s!"reject:host-used-twice:{mx}"
         else if result == "noconn" then
-          -- an execution that found the shared host iterator exhausted may complete first
-          if maxExecutions (idem == "1") sa > hosts then "accept" else "reject:noconn-with-hosts-left"
+          -- an execution that found the shared host iterator exhausted completes first
+          if e > hosts then "accept" else "reject:noconn-with-hosts-left"
         else if n == 0 then "reject:never-sent"
-        else if first != result then s!"reject:not-first-result:{first}:{result}"
+        else if released != result then s!"reject:not-first-result:{released}:{result}"
         else "accept"
-      | _, _, _ => "bad-op"
+      | _, _, _, _ => "bad-op"
+  | ["specr", _kind, pol, a, nh, nreq, most, result] =>
+      -- speculative executions sharing the statement's attempt counter: every schedule obeys
+      -- `ExecutorConc.budget` (theorem C13_shared_counter_budget)
+      match parsePolicy pol, a.toNat?, nh.toNat?, nreq.toNat?, most.toNat? with
+      | some _, some sa, some hosts, some n, some mx =>
+        let e := maxExecutions true sa
+        match limitOf pol with
+        | none => "bad-op"
+        | some lim =>
+          if result == "hang" then "reject:no-result"
+          else if n > ExecutorConc.budget lim e then s!"reject:over-shared-budget:{n}>{ExecutorConc.budget lim e}"
+          else if nextHostOnly pol && n > hosts then s!"reject:more-requests-than-hosts:{n}"
+          else if nextHostOnly pol && mx > 1 then s!"reject:host-used-twice:{mx}"
+          else if result == "ok" then "reject:ok-from-failing-hosts"
+          else "accept"
+      | _, _, _, _, _ => "bad-op"
   | ["kf-d10"] =>
       -- known finding KF-C13-1: the attempts do not depend on idempotence
-      let out := doQuery (some (simplePolicy 1)) (fun _ => .err 9) 10 [⟨1, true, true⟩, ⟨2, true, true⟩] 0
-      "attempts=" ++ ",".intercalate (out.attempts.map toString)
+      let out := doQuery ⟨.query, false⟩ (some (simplePolicy 1)) (fun _ => .err 9) 10 [⟨1, true, true⟩, ⟨2, true, true⟩] 0 0 1
+      "attempts=" ++ ",".intercalate (out.attempts.map (toString ·.host))
   | _ => "bad-op")
 
 end Driver.C13
